@@ -376,7 +376,10 @@ def run(chk: Check) -> int:
     nodes = {k: unq(v) for k, v in g.nodes.items()}
     paths = g.bfs_paths()
     chk.extra["graph_paths"] = len(paths)
-    replay_many(chk, nodes, paths, "float", notes)
+    # the same events after other histories (non-tree edges of the spanning tree), a stratified sample
+    more = g.sample_paths(g.edge_paths(), 1500 if quick else 30000, rnd)
+    chk.extra["graph_edge_paths"] = len(more)
+    replay_many(chk, nodes, paths + more, "float", notes)
     # the same paths with integer-typed sizes where the displayed size is a whole number (as in the repository's test data)
     sub = paths if not quick else rnd.sample(paths, min(len(paths), 800))
     replay_many(chk, nodes, sub, "int", notes)
